@@ -84,8 +84,12 @@ def gen_history(rng, nsteps=None, two_apps=None, simple=None, cfg=None,
                 if muts is None:
                     muts, st, rows = g.gen_sequence(st, a, n, rows)
                 if muts:
+                    # shared labels: both apps use the same label at a
+                    # step; 'offset': vb uses at step s the label va uses
+                    # at step s+1 (same label recorded in different runs)
                     label = spec.evo_label(
-                        s, '' if shared_labels else a + '_')
+                        s + (1 if shared_labels == 'offset' and a == 'vb'
+                             else 0), '' if shared_labels else a + '_')
                     evos.append({'label': label, 'mutations': muts})
             project['apps'][a]['steps'].append({'evos': evos})
         rows_by_version.append(copy.deepcopy(rows))
